@@ -207,6 +207,9 @@ fn alphabet06_core() -> Vec<Ev> {
         m(B, U30, 1, DT_MS),
         m(B, -1, D_MAX, DT_BIG),
         m(B, 0, -S, S),
+        // large common offset / delay with tiny distinct jitter (post-initialisation: delay buffer, noise estimate)
+        Ev::burst(A, 3600 * S, S, S, 8, US, 1).with_pattern(1),
+        Ev::burst(G, -86_400 * S, 0, S, 8, 1, 0).with_pattern(2),
         Ev::Tick,
     ]
 }
@@ -289,6 +292,7 @@ fn check() {
     let full = alphabet06_full();
     let (d_core, d_full) = if quick { (3, 1) } else { (4, 2) };
     let d_per = if quick { 3 } else { 5 };
+    let d_jit = if quick { 2 } else { 3 };
     ctx.rule(&format!(
         "From each of 8 pre-built post-initialisation states (8 benign / 8 identical / 8 alternating-extreme samples x two-way A / one-way G, plus benign two-way next to alternating-extreme one-way and vice versa) and for 2 configurations \
          (shipped algorithm defaults; maximum_source_uncertainty unlimited so that extreme estimates are selected and steered on), BFS over all measurement histories of \
@@ -296,6 +300,9 @@ fn check() {
          dt {{1 ms,1 s,2^17 s}}, root delay/dispersion {{0, max short}} occurs, all pairs of extreme values occur; second two-way source B; slew-end timer) and <= {d_full} events \
          over the {}-symbol full product alphabet; steering fed back to every source, the mock clock's steps move the local time of later measurements; plus (one-way source made periodic, period 1 s) \
          all histories of <= {d_per} events over a 13-symbol alphabet with offsets at and around +-period/2 from 2 start states. \
+         Plus large-common-value-plus-tiny-jitter cases: 8-sample initialisation bursts with offset base {{+-60, +-3600, +-86400, +-1e6, +-2^29 s}} (two-way and one-way) or delay base \
+         {{1, 3600, 65535 s}} x jitter scale {{2^-32 s, 1 us, 1 ms}} x pattern {{monotone, alternating; thorough also irregular}} x configuration {{quorum 2 = nothing steered before the 8th sample, \
+         quorum 1, all sources selectable}}, each followed by all histories of <= {d_jit} events over an 11-symbol alphabet built around the same base and jitter. \
          States deduplicated on exact bit patterns. Distinct & non-trivial = distinct end state reached by a transition that invoked the controller.",
         core.len(),
         full.len()
@@ -356,6 +363,71 @@ fn check() {
             });
         }
     }
+    // "large common value + tiny distinct jitter": initialisation bursts whose 8 samples share a
+    // large base (offset, or round-trip delay) and differ only by units .. milliseconds. This is
+    // where a sample variance computed with cancellation goes negative. Each burst is run (a) with
+    // a quorum of 2 so that nothing is steered before the 8th sample, (b) with the shipped quorum
+    // of 1 (the controller steps on the way), (c) with every source selectable; then followed by
+    // all histories over a small alphabet built around the same base/jitter (continuation,
+    // jump to 0 / -base, further large-base tiny-jitter bursts incl. delay jitter, a second
+    // source agreeing or not, clock meddling = re-initialisation, timer).
+    let mut jitter_specs = 0u64;
+    {
+        let bases: [i64; 10] = [60 * S, -60 * S, 3600 * S, -3600 * S, 86_400 * S, -86_400 * S, 1_000_000 * S, -1_000_000 * S, 1i64 << 61, -(1i64 << 61)];
+        let scales: [(i64, &str); 3] = [(1, "1u"), (US, "1us"), (MS, "1ms")];
+        let patterns: &[u8] = if quick { &[1, 2] } else { &[1, 2, 3] };
+        let cfgs = [
+            (Cfg { min_agree: 2, ..Cfg::default() }, "quorum2", 0u8),
+            (Cfg::default(), "quorum1", 0u8),
+            (Cfg { max_src_unc: 1e300, order: 1, ..Cfg::default() }, "unlimited", 1u8),
+        ];
+        // (source under initialisation, offset base, delay base, offset jitter, delay jitter)
+        let mut cases: Vec<(u8, i64, i64, i64, i64, String)> = Vec::new();
+        for &b in &bases {
+            for &(j, jn) in &scales {
+                cases.push((A, b, MS, j, j.min(MS / 50), format!("two-way offset {}s jitter {jn}", b / S)));
+                cases.push((G, b, 0, j, 0, format!("one-way offset {}s jitter {jn}", b / S)));
+            }
+        }
+        for db in [S, 3600 * S, D_MAX] {
+            for &(j, jn) in &scales {
+                cases.push((A, MS, db, j, j, format!("two-way delay {}s jitter {jn}", db / S)));
+            }
+        }
+        for (x, b, db, j, dj, name) in &cases {
+            let (x, b, db, j, dj) = (*x, *b, *db, *j, *dj);
+            let y = if x == A { B } else { A };
+            for &pat in patterns {
+                let follow: Vec<Ev> = vec![
+                    m(x, b, db, S),
+                    m(x, b.saturating_add(j), db, DT_MS),
+                    m(x, 0, db, S),
+                    m(x, b.saturating_neg(), db, DT_BIG),
+                    Ev::burst(x, b, db, S, 8, j, dj).with_pattern(1),
+                    Ev::burst(x, b, db.max(S), S, 8, j, 1).with_pattern(2),
+                    m(y, b, US, S),
+                    Ev::burst(y, b, MS, S, 8, j, 1).with_pattern(pat),
+                    m(y, 0, US, S),
+                    m(x, b, db, S).with_mono(100_000_000_000),
+                    Ev::Tick,
+                ];
+                for (cfg, cn, rank) in &cfgs {
+                    let mut prefix = prefix_usable();
+                    prefix.push(Ev::burst(x, b, db, S, 8, j, dj).with_pattern(pat));
+                    specs.push(Spec {
+                        rank: *rank,
+                        name: format!("jitter/{name}/pat{pat}/{cn}"),
+                        cfg: cfg.clone(),
+                        prefix,
+                        alphabet: follow.clone(),
+                        depth: d_jit,
+                    });
+                    jitter_specs += 1;
+                }
+            }
+        }
+    }
+    ctx.set("jitter_burst_explorations", jitter_specs);
     ctx.note("alphabet_periodic", &periodic.iter().map(|e| e.encode()).collect::<Vec<_>>().join(" "));
     ctx.set("explorations", specs.len() as u64);
     let complete = run_specs::<M06, _>(&ctx, &specs, &judge06);
